@@ -119,10 +119,10 @@ MtCanStart(m, f, i, o, bug) ==
     (IF "can_start_uses_stop" \in bug THEN m.S ELSE m.T) - m.cInUse - m.outUsed >= f + i + o
 
 \* eviction + start of a thread (slot: an index of a cached slot to reuse, or 0 for a new one)
-MtStartThread(m, f, i, o, slot) ==
+MtStartThread(m, f, i, o, slot, bug) ==
     LET memMax == m.T - (f + i + o)
         \* 1. lzma_outq_clear_cache2: keep one cached buffer of exactly the right size
-        clr == m.cInUse + m.cCached + OutAlloc(m) > memMax
+        clr == m.cInUse + m.cCached + (IF "outq_cache_test_uses_in_use" \in bug THEN m.outUsed ELSE OutAlloc(m)) > memMax
         keep1 == clr /\ \E k \in 1..Len(m.outCached) : m.outCached[k] = o
         oc1 == IF ~clr THEN m.outCached ELSE IF keep1 THEN <<o>> ELSE <<>>
         \* 2. free cached Block decoders (not the first one if it is not bigger than f)
